@@ -760,6 +760,7 @@ def _put_one_Constant_kind(
         elif value == 'u':
             if lines[ln][col : col + 1] in '\'"':
                 self._put_src(['u'], ln, col, ln, col, False, False)
+                self._fix_joined_alnums(ln, col, lines=lines)  # `not'a'` -> `not u'a'`
 
         else:
             raise ValueError(f"expecting 'u' or None, got {value!r}")
